@@ -65,7 +65,8 @@ def walk_chains(inst_kw, paths, procs=16, per_path_inst=None):
     rootrec = {"call": {"op": "init", "pid": "-", "c": "-", "val": "-", "fmt": "-", "ver": "-"},
                "res": {"cls": "ok", "cid": "-", "data": "-", "truth": True},
                "post": d0.abstract(), "kids": []}
-    jobs = [((per_path_inst[k] if per_path_inst else inst_kw), paths, [], [k], base, None)
+    # (each job carries only its own history: shipping the whole list to every job is quadratic)
+    jobs = [((per_path_inst[k] if per_path_inst else inst_kw), {k: paths[k]}, [], [k], base, None)
             for k in range(len(paths))]
     with multiprocessing.get_context("fork").Pool(min(procs, len(jobs))) as pool:
         results = pool.map(_worker, jobs, chunksize=1)
